@@ -21,8 +21,9 @@ VARIABLES impA1, impA2, impB1,  \* sets of imported files
           cCommits,             \* sequence of distinct commit ids of C in the order they were added, from {1,2,3} (id = creation time)
           dupPath,              \* B also provides the path of c1
           missing,              \* a2 imports a path nobody provides
-          wktVendored           \* B carries its own copy of the well-known type that a1 may import
-vars == <<impA1, impA2, impB1, bKind, cCommits, dupPath, missing, wktVendored>>
+          wktVendored,          \* B carries its own copy of the well-known type that a1 may import
+          wktVendoredC          \* C carries a copy of it too: the path is provided twice
+vars == <<impA1, impA2, impB1, bKind, cCommits, dupPath, missing, wktVendored, wktVendoredC>>
 
 SeqsNoRepeat(S, n) == UNION {{s \in [1..k -> S] : \A i, j \in 1..k : i # j => s[i] # s[j]} : k \in 1..n}
 Init == /\ impA1 \in SUBSET {"b1", "c1", "wkt"}
@@ -33,6 +34,7 @@ Init == /\ impA1 \in SUBSET {"b1", "c1", "wkt"}
         /\ dupPath \in BOOLEAN /\ missing \in BOOLEAN
         /\ ~(dupPath /\ missing)
         /\ wktVendored \in BOOLEAN /\ (wktVendored => (~dupPath /\ ~missing /\ Len(cCommits) = 1))
+        /\ wktVendoredC \in BOOLEAN /\ (wktVendoredC => wktVendored)
 Next == UNCHANGED vars
 Spec == Init /\ [][Next]_vars
 
@@ -58,8 +60,14 @@ CycleReachable(m) == \E n \in ReachFrom({}, m) : OnCycle(n)
 AnyCycle == \E n \in {"A"} \cup ReachFrom({}, "A") : OnCycle(n)
 Visited(m) == {m} \cup ReachFrom({}, m)
 \* the path of c1 is provided twice: importing it is ambiguous, and so is a traversal that sees both providers
-AmbiguousFrom(m) == dupPath /\ ( (\E x \in Visited(m) : \E f \in FilesOf[x] : "c1" \in Imports(f)) \/ {"B", "C"} \subseteq Visited(m) )
+\* (the same holds for the well-known type that B and C both carry: being a well-known type does not excuse it)
+DupPaths == (IF dupPath THEN {"c1"} ELSE {}) \cup (IF wktVendored /\ wktVendoredC THEN {"wkt"} ELSE {})
+AmbiguousFrom(m) == \E d \in DupPaths : (\E x \in Visited(m) : \E f \in FilesOf[x] : d \in Imports(f)) \/ {"B", "C"} \subseteq Visited(m)
 MissingFrom(m) == missing /\ "A" \in Visited(m)
+\* The compilation of a module only stumbles over an ambiguous path that something it compiles imports; the
+\* dependency computation also refuses two providers that nobody imports from.
+AmbiguousImportFrom(m) == \E d \in DupPaths : \E x \in Visited(m) : \E f \in FilesOf[x] : d \in Imports(f)
+BuildMustFail(m) == MissingFrom(m) \/ AmbiguousImportFrom(m)
 
 Result(m) ==
   LET cyc == OnCycle(m)
@@ -81,6 +89,7 @@ NewestWins == \A i \in 1..Len(cCommits) : cCommits[i] <= Newest
 
 EmitCase == Emit => PrintT(<<"CASE", ToJson(
   [impA1 |-> impA1, impA2 |-> impA2, impB1 |-> impB1, bKind |-> bKind, cCommits |-> cCommits, dupPath |-> dupPath, missing |-> missing,
-   wktVendored |-> wktVendored,
+   wktVendored |-> wktVendored, wktVendoredC |-> wktVendoredC,
+   buildMustFailA |-> BuildMustFail("A"),
    newest |-> Newest, anyCycle |-> AnyCycle, fromTargets |-> {"A"} \cup ReachFrom({}, "A"), results |-> [m \in Mods |-> Result(m)]])>>)
 =============================================================================
